@@ -14,7 +14,8 @@ ID = "C14"
 LEVEL = "exploration"
 RULE = ("(a) literals: every unit suffix of the documented table (k kb kib m mb mib g gb gib t tb tib b, none) in every "
         "letter-case variant x numbers {1, 2, 3, 10, 1.5, 0.5, 2.25} x the six comparison operators and =, against "
-        "sparse files of size floor(n*mult)-1, floor(n*mult), floor(n*mult)+1 - enumerated exhaustively in both tiers. "
+        "sparse files of size floor(n*mult)-1, floor(n*mult), floor(n*mult)+1, compared with the exact rational n*mult "
+        "(0.3k is 307.2 bytes: `=` matches nothing, `>=` starts at 308) - enumerated exhaustively in both tiers. "
         "(b) formatting: specifier strings from the documented grammar [%.N][space][c|d][s][unit] x sizes on a "
         "logarithmic grid 0..2^50 with +-1 neighbours, through format_size(N, spec) and through fsize with "
         "default_file_size_format in the configuration file: the 15 rows of the documentation table verbatim; unit "
@@ -36,7 +37,9 @@ MULT = {"k": 1024, "kib": 1024, "kb": 1000, "m": 1024 ** 2, "mib": 1024 ** 2, "m
         "b": 1, "": 1}
 NUMS = ["1", "2", "3", "10", "1.5", "0.5", "2.25",
         # decimal fractions that are not exact in binary floating point but give a whole number of bytes with a decimal unit
-        "2.01", "4.02", "8.03", "0.3", "1.001"]
+        "2.01", "4.02", "8.03", "0.3", "1.001",
+        # below zero and beyond a 64-bit integer: still numbers
+        "-1", "-0.5", "9000000000"]
 OPS = ["=", "!=", ">", ">=", "<", "<=", "eq"]
 
 DOC_TABLE = [
@@ -68,7 +71,7 @@ def enumerate_cases(tier):
     for unit in ["k", "kb", "kib", "m", "mb", "mib", "g", "gb", "gib", "t", "tb", "tib", "b", ""]:
         for spelled in case_variants(unit):
             for num in NUMS:
-                if unit in ("b", "") and "." in num:
+                if unit == "" and "." in num:
                     continue
                 cases.append({"kind": "literal", "num": num, "unit": unit, "spelled": spelled})
     cases.append({"kind": "doctable"})
@@ -343,9 +346,11 @@ def check_mixed(out, c, base):
 def check_literal(out, c, base):
     mult = MULT[c["unit"]]
     exact = fractions.Fraction(c["num"]) * mult        # the byte count the literal denotes, as an exact rational
-    n = int(exact) if exact.denominator == 1 else int(math.floor(exact))
+    n = int(math.floor(exact))
     lit = c["num"] + c["spelled"]
     files = {"lo": n - 1, "eq": n, "hi": n + 1}
+    if n < 0 or n > 2 ** 42:
+        files = {"lo": 0, "eq": 1, "hi": 4096}       # every file is above (below) such a literal
     for nm, sz in files.items():
         if sz < 0:
             continue
@@ -363,12 +368,13 @@ def check_literal(out, c, base):
             out.add("C14/literal/run-failed", query=q, status=res.status, stderr=res.err[:200])
             continue
         got = {r[0] for r in runner.rows(res.out, 1)}
-        cmpf = {"=": lambda x: x == n, "eq": lambda x: x == n, "!=": lambda x: x != n, ">": lambda x: x > n,
-                ">=": lambda x: x >= n, "<": lambda x: x < n, "<=": lambda x: x <= n}[op]
+        # `size OP literal` is the numeric comparison with that byte count - also when it is no whole number (0.3k = 307.2)
+        cmpf = {"=": lambda x: x == exact, "eq": lambda x: x == exact, "!=": lambda x: x != exact, ">": lambda x: x > exact,
+                ">=": lambda x: x >= exact, "<": lambda x: x < exact, "<=": lambda x: x <= exact}[op]
         want = {nm for nm, sz in files.items() if sz >= 0 and cmpf(sz)}
         if got != want:
             out.add("C14/literal/%s/%s" % (c["unit"] or "none", "fraction" if "." in c["num"] else "integer"),
-                    query=q, bytes=n, got=sorted(got), want=sorted(want))
+                    query=q, bytes=str(exact) if exact.denominator != 1 else n, got=sorted(got), want=sorted(want))
         keys.append("%s %s" % (op, lit))
     out.nt_keys = keys
     out.classes += ["literal", "unit=" + (c["unit"] or "none")] + (["fraction"] if "." in c["num"] else []) + \
